@@ -53,6 +53,11 @@ def body_signature(fn: ast.FunctionDef, own_names: Set[str]) -> str:
     import hashlib
 
     body = [b for b in fn.body if not (isinstance(b, ast.Expr) and isinstance(b.value, ast.Constant) and isinstance(b.value.value, str))]
+    order = _local_order(fn, body)
+    return _digest_with(fn, body, order, own_names, blank_attrs=None)
+
+
+def _local_order(fn: ast.FunctionDef, body) -> Dict[str, str]:
     # local variables (parameters, assigned names, handler names) are numbered in order of first appearance: the digest is
     # also equal for a copy whose locals were renamed along with the function
     order: Dict[str, str] = {}
@@ -83,10 +88,18 @@ def body_signature(fn: ast.FunctionDef, own_names: Set[str]) -> str:
 
     for b in body:
         Seq().visit(b)
+    return order
+
+
+def _digest_with(fn, body, order, own_names, blank_attrs) -> str:
+    import hashlib
 
     class B(ast.NodeTransformer):
         def visit_Attribute(self, n):
             self.generic_visit(n)
+            if blank_attrs is not None:
+                blank_attrs.append(n.attr)
+                return ast.Attribute(value=n.value, attr="_A_", ctx=n.ctx)
             return ast.Attribute(value=n.value, attr="_F_", ctx=n.ctx) if n.attr in own_names else n
 
         def visit_Name(self, n):
@@ -104,8 +117,14 @@ def body_signature(fn: ast.FunctionDef, own_names: Set[str]) -> str:
             n.arg = order.get(n.arg, n.arg)
             return n
 
-        def visit_keyword(self, n):
+        def visit_Call(self, n):
+            own = (isinstance(n.func, ast.Attribute) and n.func.attr in own_names) or (isinstance(n.func, ast.Name) and n.func.id in own_names and n.func.id not in order)
             self.generic_visit(n)
+            if own:
+                # parameters of a sibling may have been renamed along with it: keywords of such a call count by position
+                for i_, k in enumerate(n.keywords):
+                    if k.arg is not None:
+                        k.arg = f"_K{i_}"
             return n
 
     txt = ast.dump(ast.Module(body=[B().visit(copy.deepcopy(x)) for x in body], type_ignores=[]), annotate_fields=False, include_attributes=False)
@@ -114,24 +133,13 @@ def body_signature(fn: ast.FunctionDef, own_names: Set[str]) -> str:
 
 
 def attr_signature(fn: ast.FunctionDef, own_names: Set[str]) -> Tuple[str, List[str]]:
-    """(digest of the function with every attribute name blanked, the attribute names in source order): two versions of a
-    function that differ only by renamed attributes have equal digests and position-wise related name lists"""
-    import hashlib
-
-    names: List[str] = []
-
-    class B(ast.NodeTransformer):
-        def visit_Attribute(self, n):
-            self.generic_visit(n)
-            names.append(n.attr)
-            return ast.Attribute(value=n.value, attr="_A_", ctx=n.ctx)
-
-        def visit_Name(self, n):
-            return ast.Name(id="_F_", ctx=n.ctx) if n.id in own_names else n
-
+    """(digest of the function with every attribute name blanked and its locals numbered, the attribute names in source
+    order): two versions of a function that differ only by renamed attributes (and renamed locals / parameters) have equal
+    digests and position-wise related name lists"""
     body = [b for b in fn.body if not (isinstance(b, ast.Expr) and isinstance(b.value, ast.Constant) and isinstance(b.value.value, str))]
-    txt = ast.dump(ast.Module(body=[B().visit(copy.deepcopy(x)) for x in body], type_ignores=[]), annotate_fields=False, include_attributes=False)
-    return hashlib.sha1(txt.encode()).hexdigest()[:16], names
+    names: List[str] = []
+    dg = _digest_with(fn, body, _local_order(fn, body), own_names, blank_attrs=names)
+    return dg, names
 
 
 def undo_attr_renames(trees: Dict[str, ast.Module]) -> List[str]:
@@ -191,6 +199,13 @@ def undo_attr_renames(trees: Dict[str, ast.Module]) -> List[str]:
                 n.attr = plan[n.attr]
             elif isinstance(n, ast.AnnAssign) and isinstance(n.target, ast.Name) and n.target.id in plan and isinstance(getattr(n, "_in_class", None), bool):
                 pass
+    # a renamed method: its definition carries the name as well
+    defined = {m.name for t in trees.values() for c in ast.walk(t) if isinstance(c, ast.ClassDef) for m in c.body if isinstance(m, ast.FunctionDef)}
+    for t in trees.values():
+        for c in [c for c in ast.walk(t) if isinstance(c, ast.ClassDef)]:
+            for m in c.body:
+                if isinstance(m, ast.FunctionDef) and m.name in plan and plan[m.name] not in defined:
+                    m.name = plan[m.name]
     # the attribute named by a string in hasattr / getattr / setattr / delattr
     for t in trees.values():
         for n in ast.walk(t):
@@ -218,6 +233,7 @@ def undo_renames(trees: Dict[str, ast.Module]) -> List[str]:
     if not kf or not _SIGS:
         return []
     plan: Dict[str, str] = {}  # new simple name -> old simple name
+    method_news: Set[str] = set()
     for mod, t in trees.items():
         known, sigs = kf.get(mod, set()), _SIGS.get(mod, {})
         if not sigs:
@@ -242,6 +258,8 @@ def undo_renames(trees: Dict[str, ast.Module]) -> List[str]:
                 new_s, old_s = cands[0].split(".")[-1], old.split(".")[-1]
                 if plan.get(new_s, old_s) == old_s:
                     plan[new_s] = old_s
+                    if "." in old:
+                        method_news.add(new_s)
     if not plan:
         return []
     # the old names must be free (nothing else is called that now)
@@ -254,7 +272,10 @@ def undo_renames(trees: Dict[str, ast.Module]) -> List[str]:
                 used.add(n.id)
             elif isinstance(n, ast.FunctionDef):
                 used.add(n.name)
-    plan = {k: v for k, v in plan.items() if v not in used}
+    # (a method's old name may also be the name of another class's method - as it was before the rename; only plain functions,
+    # which are referenced by bare name, need the name to be unused)
+    method_olds = {v for k, v in plan.items() if k in method_news}
+    plan = {k: v for k, v in plan.items() if v not in used or v in method_olds}
     if not plan:
         return []
     for t in trees.values():
@@ -882,7 +903,71 @@ def expand_module(tree: ast.Module, modname: str) -> Tuple[int, List[str]]:
     ex = Expander(tree, modname, known)
     n = ex.run()
     cs = collapse_container_subclasses(tree, known, ex) if n else []
-    return n + nt + len(cs), te.sites + ex.sites + cs
+    ea = eafp_lookups(tree, modname)
+    return n + nt + len(cs) + len(ea), te.sites + ex.sites + cs + ea
+
+
+def changed_functions(tree: ast.Module, modname: str) -> List[ast.FunctionDef]:
+    """functions of the module whose body differs from the pinned tree's (or that are new)"""
+    sigs = _SIGS.get(modname, {})
+    present: Dict[str, ast.FunctionDef] = {}
+    for st in tree.body:
+        if isinstance(st, ast.FunctionDef):
+            present[st.name] = st
+        elif isinstance(st, ast.ClassDef):
+            for m in st.body:
+                if isinstance(m, ast.FunctionDef):
+                    present[f"{st.name}.{m.name}"] = m
+    own = {q.split(".")[-1] for q in list(sigs) + list(present)}
+    return [d for q, d in present.items() if sigs.get(q) != body_signature(d, own)]
+
+
+def eafp_lookups(tree: ast.Module, modname: str) -> List[str]:
+    """In functions that changed since the rules were written:
+         try: x = D[k]                       x = D.get(k)
+         except KeyError: <A>        ->      if x is None: <A>
+         else: <B>                           else: <B>
+    (D one of the object's registries, whose values are never None).  The look-before-you-leap spelling is the one the rules
+    know (`if self.modules.get(conn) is not module: return`)."""
+    if not _SIGS:
+        return []
+    out = []
+
+    def rewrite(stmts):
+        res = []
+        for st in stmts:
+            for fld in ("body", "orelse", "finalbody"):
+                v = getattr(st, fld, None)
+                if isinstance(v, list) and v and isinstance(v[0], ast.stmt):
+                    setattr(st, fld, rewrite(v))
+            if isinstance(st, ast.Try):
+                for h in st.handlers:
+                    h.body = rewrite(h.body)
+                if len(st.body) == 1 and isinstance(st.body[0], ast.Assign) and len(st.body[0].targets) == 1 and isinstance(st.body[0].targets[0], ast.Name) \
+                        and isinstance(st.body[0].value, ast.Subscript) and not isinstance(st.body[0].value.slice, ast.Slice) and _pure(st.body[0].value.value) and _pure(st.body[0].value.slice) \
+                        and ast.unparse(st.body[0].value.value).startswith("self.") and len(st.handlers) == 1 and st.handlers[0].name is None \
+                        and st.handlers[0].type is not None and ast.unparse(st.handlers[0].type) == "KeyError" and not st.finalbody:
+                    a = st.body[0]
+                    sub = a.value
+                    get = ast.Call(func=ast.Attribute(value=sub.value, attr="get", ctx=ast.Load()), args=[sub.slice], keywords=[])
+                    na = ast.copy_location(ast.Assign(targets=a.targets, value=get), a)
+                    test = ast.Compare(left=ast.Name(id=a.targets[0].id, ctx=ast.Load()), ops=[ast.Is()], comparators=[ast.Constant(value=None)])
+                    hb = st.handlers[0].body
+                    ni = ast.copy_location(ast.If(test=test, body=hb, orelse=st.orelse), st)
+                    if all(isinstance(x, ast.Pass) for x in hb) and st.orelse:
+                        ni = ast.copy_location(ast.If(test=ast.Compare(left=ast.Name(id=a.targets[0].id, ctx=ast.Load()), ops=[ast.IsNot()], comparators=[ast.Constant(value=None)]),
+                                                      body=st.orelse, orelse=[]), st)
+                    ast.fix_missing_locations(na)
+                    ast.fix_missing_locations(ni)
+                    out.append(f"EAFP lookup of {ast.unparse(sub)} at line {st.lineno} read as .get() / is None")
+                    res.extend([na, ni])
+                    continue
+            res.append(st)
+        return res
+
+    for d in changed_functions(tree, modname):
+        d.body = rewrite(d.body)
+    return out
 
 
 _CONTAINER_BASES = {"DefaultDict": "defaultdict", "defaultdict": "defaultdict", "Dict": "dict", "dict": "dict", "List": "list", "list": "list",
